@@ -410,6 +410,8 @@ def oracle(case, obs, messages, flags):
                         if r is None or typed(r[1], a[2]) is None or typed(r[1], a[2]) == 'SKIP':
                             cause = True
                     else:
+                        if a[0] in [k for k, _ in (P['cl'] or [])] and r is None:
+                            continue      # -U of a recorded key whose option was removed: drops the record
                         if r is None or ':' not in a[0] and a[0] not in BUILTIN_KINDS:
                             cause = True
                         if Pcd is not None and a[0] not in Pcd['aug'] and a[0] not in Pcd['opts'] and r is not None and r[0] not in decls:
@@ -466,8 +468,12 @@ def oracle(case, obs, messages, flags):
             want_cl = cl_update(P['cl'] or [], args)
             clause = 'the command line is recorded (-D sets, -U deletes)'
         if Q['cl'] != want_cl:
-            fail(i, clause, 'record-mismatch:' + ('first' if first_like else tag),
-                 'cmd_line.txt is %r, expected %r' % (Q['cl'], want_cl))
+            if Q['cl'] == [[k, v.strip()] for k, v in want_cl]:
+                fail(i, clause, 'record-strips-blanks',
+                     'cmd_line.txt records %r for the given %r: blanks at the ends of a value are lost' % (Q['cl'], want_cl))
+            else:
+                fail(i, clause, 'record-mismatch:' + ('first' if first_like else tag),
+                     'cmd_line.txt is %r, expected %r' % (Q['cl'], want_cl))
         saved = first_like or reconf or Qcd != Pcd
         # a removed option vanishes, a new one exists
         projkeys = {k for k in Qcd['opts'] if ':' in k}
@@ -685,7 +691,7 @@ def oracle(case, obs, messages, flags):
                 want = fmt_message(o[3])
                 if o[0][0] == 'f':
                     want = {'enabled': 'true/false', 'disabled': 'false/true', 'auto': 'false/false'}.get(o[3][1:], '?')
-                if text != want:
+                if text.strip() != want.strip():
                     fail(i, 'get_option agrees with the persisted state', 'get-option-mismatch:' + key,
                          'get_option printed %r, the persisted effective value is %r' % (text, want))
         # the introspection file shows the persisted values
@@ -724,6 +730,66 @@ def oracle(case, obs, messages, flags):
     return fails
 
 
+# ====================================================================== fork runner
+# {"op":"run","argv":[...],"env":{...}} runs ONE meson command in a freshly forked child of this
+# (warmed-up) process: the child calls mesonbuild.mesonmain.run(argv, <repo>/meson.py) - the
+# function meson.py itself calls - and exits.  Every command is still a separate process that
+# shares nothing with the previous one except the build directory; only the interpreter start
+# and the module imports (about 0.6 s of a 0.7 s `meson configure`) are saved.
+_WARM = False
+
+
+def warm_up():
+    global _WARM
+    if _WARM:
+        return
+    import mesonbuild.mesonmain, mesonbuild.msetup, mesonbuild.mconf, mesonbuild.mintro   # noqa
+    import mesonbuild.interpreter, mesonbuild.backend.ninjabackend, mesonbuild.optinterpreter   # noqa
+    import mesonbuild.modules, mesonbuild.scripts.meson_exe, mesonbuild.programs   # noqa
+    _WARM = True
+
+
+def run_forked(argv, env):
+    import tempfile
+    warm_up()
+    repo = os.environ.get('PYTHONPATH', '').split(os.pathsep)[0]
+    mainfile = os.path.join(repo, 'meson.py')
+    with tempfile.TemporaryFile() as out:
+        pid = os.fork()
+        if pid == 0:
+            rc = 99
+            try:
+                os.environ.update(env)
+                os.dup2(out.fileno(), 1)
+                os.dup2(out.fileno(), 2)
+                devnull = os.open(os.devnull, os.O_RDONLY)
+                os.dup2(devnull, 0)
+                sys.stdout = open(1, 'w', encoding='utf-8', errors='replace', closefd=False)
+                sys.stderr = open(2, 'w', encoding='utf-8', errors='replace', closefd=False)
+                sys.argv = [mainfile] + list(argv)
+                from mesonbuild import mesonmain
+                try:
+                    rc = mesonmain.run(list(argv), mainfile)
+                except SystemExit as e:
+                    rc = e.code if isinstance(e.code, int) else (0 if e.code is None else 1)
+                rc = 0 if rc is None else int(rc)
+                sys.stdout.flush()
+                sys.stderr.flush()
+            except BaseException:   # noqa
+                import traceback
+                try:
+                    os.write(2, ('Unhandled python exception in forked runner\n' + traceback.format_exc()).encode())
+                except OSError:
+                    pass
+                rc = 2
+            os._exit(rc & 0xff)
+        _, status = os.waitpid(pid, 0)
+        rc = os.waitstatus_to_exitcode(status)
+        out.seek(0)
+        text = out.read().decode('utf-8', 'replace')
+    return {'rc': rc, 'out': text[-400000:]}
+
+
 def main():
     for line in sys.stdin:
         line = line.strip()
@@ -733,6 +799,8 @@ def main():
         try:
             if req['op'] == 'dump':
                 res = dump(req['bd'], set(req['watch']))
+            elif req['op'] == 'run':
+                res = run_forked(req['argv'], req.get('env', {}))
             elif req['op'] == 'oracle':
                 res = {'failures': oracle(req['case'], req['obs'], req['messages'], req['flags'])}
             else:
